@@ -54,7 +54,18 @@ DUP_LEX_DATA = json.dumps(json.loads(DATA) + [
     {"@id": "http://example.org/zzz/source-map", "@type": [SM + "SourceMap"], SM + "lexical": [{"@id": "http://example.org/zzz/sm/e0"}]},
     {"@id": "http://example.org/zzz/sm/e0", SM + "element": "http://example.org/n1", SM + "value": "[(9,9)-(9,9)]"},
     {"@id": "amf://id/BaseUnitSourceInformation", "@type": ["http://a.ml/vocabularies/document#BaseUnitSourceInformation"],
-     "http://a.ml/vocabularies/document#rootLocation": "file:///root.raml"},
+     "http://a.ml/vocabularies/document#rootLocation": "file:///root.raml",
+     "http://a.ml/vocabularies/document#additionalLocations": [{"@id": "amf://id/loc_0"}, {"@id": "amf://id/loc_1"}, {"@id": "amf://id/loc_2"}]},
+    # the same element listed by several locations
+    {"@id": "amf://id/loc_0", "@type": ["http://a.ml/vocabularies/document#LocationInformation"],
+     "http://a.ml/vocabularies/document#location": "file:///lib-a.raml",
+     "http://a.ml/vocabularies/document#elements": [{"@id": "http://example.org/n1"}, {"@id": "http://example.org/n2"}]},
+    {"@id": "amf://id/loc_1", "@type": ["http://a.ml/vocabularies/document#LocationInformation"],
+     "http://a.ml/vocabularies/document#location": "file:///lib-b.raml",
+     "http://a.ml/vocabularies/document#elements": [{"@id": "http://example.org/n1"}]},
+    {"@id": "amf://id/loc_2", "@type": ["http://a.ml/vocabularies/document#LocationInformation"],
+     "http://a.ml/vocabularies/document#location": "file:///lib-c.raml",
+     "http://a.ml/vocabularies/document#elements": [{"@id": "http://example.org/n2"}, {"@id": "http://example.org/n1"}]},
 ])
 
 
@@ -135,7 +146,7 @@ def run(tier):
                 shas.setdefault(ln["sha"], []).append(ln["src"])
         shape = "quantified siblings in one mapping" if name.startswith("quant") else name
         V.disagree("%s differs between runs (%s)" % ({"code": "generated code", "report": "report",
-                                                       "cli-generate": "acv generate output"}[kind], shape),
+                                                       "cli-generate": "acv generate output", "report-alt": "report (alternative schema IRIs)"}[kind], shape),
                    {"input": name, "kind": kind, "distinct_outputs": {k: sorted(set(v))[:6] for k, v in shas.items()},
                     "profile": byname[name][0], "data": byname[name][1] if len(byname[name][1]) < 4000 else None})
     # self-test of the binding
